@@ -13,10 +13,10 @@ from . import constraints_lib as cl
 TEXT_POOL = ['', 'a', 'abc', 'ABC', 'a b', ' lead', 'trail ', 'tab\there', 'new\nline', "quo'te", 'dq"uote', 'back\\slash',
              'é', 'ü', 'ñandú', '☃', '\U0001F600', 'x\U0001F600y', '中文', 'ß', 'ǅ', '٣', '²', 'a.b', 'a-b', 'a_b',
              '12', '007', '1.5', '-3', '+', '^', '$', '.*', '[x]', '(y)', '{z}', 'a|b', '?', '*', '#', '%',
-             'CamelCase', 'snake_case', 'kebab-case', 'x' * 40, ' ', ' ', 'NULL', 'None', 'nan', 'true']
+             'row{2}', 'item{10}', 'a{3}', 'CamelCase', 'snake_case', 'kebab-case', 'x' * 40, ' ', ' ', 'NULL', 'None', 'nan', 'true']
 
 FIELD_NAMES = ['a', 'B', 'col 1', 'naïve', 'x.y', 'f-1', '1', 'select', "it's", 'dq"', 'uni☃', 'n_failures',
-               'Index', 'a_min_ok', 'id', 'cafe\u0301', 'e\u0301te\u0301', '\ufeffid']
+               'Index', 'a_min_ok', 'id', 'cafe\u0301', 'e\u0301te\u0301', '\ufeffid', ' id', 'amount ', 'note\t']      # (also names with blanks at their ends)
 
 
 def rich_series(rnd, n, kind=None):
